@@ -47,7 +47,22 @@ impl<const P: u128> ops::Mul<FiniteField<P>> for FiniteField<P> {
     type Output = FiniteField<P>;
 
     fn mul(self, rhs: FiniteField<P>) -> Self::Output {
-        FiniteField::new((self.v * rhs.v) % P)
+        if P <= (1 << 64) {
+            // both operands are below 2^64, the product fits in a u128
+            return FiniteField::new((self.v * rhs.v) % P);
+        }
+        // larger moduli (P < 2^127): double-and-add, every intermediate value stays below 2 * P
+        let mut acc: u128 = 0;
+        let mut a = self.v;
+        let mut b = rhs.v;
+        while b > 0 {
+            if b & 1 == 1 {
+                acc = (acc + a) % P;
+            }
+            a = (a + a) % P;
+            b >>= 1;
+        }
+        FiniteField::new(acc)
     }
 }
 
@@ -55,10 +70,10 @@ impl<const P: u128> ops::Sub<FiniteField<P>> for FiniteField<P> {
     type Output = FiniteField<P>;
 
     fn sub(self, rhs: FiniteField<P>) -> Self::Output {
-        FiniteField::new(if self.v > rhs.v {
+        FiniteField::new(if self.v >= rhs.v {
             self.v - rhs.v
         } else {
-            rhs.v - self.v
+            P - (rhs.v - self.v)
         })
     }
 }
